@@ -1,4 +1,5 @@
 import os
+import re
 import sys
 
 from contextlib import contextmanager
@@ -14,6 +15,7 @@ except:
     SUFFIXES = [s for s, _, _ in imp.get_suffixes()]
 
 SOURCE_SUFFIXES = ('.py',)
+IDENTIFIER = re.compile(r'[^\W\d]\w*$', re.UNICODE)
 
 if False:
     import typing as t
@@ -66,7 +68,8 @@ class Project(object):
                     if os.path.exists(os.path.join(pdir, name, '__init__.py')):
                         modules.add(name)
 
-        return modules
+        # file names no import statement can spell (notes.txt.py, my-script.py)
+        return set(m for m in modules if IDENTIFIER.match(m))
 
     @contextmanager
     def check_changes(self):
